@@ -9,7 +9,8 @@ import CpModel.Cache
     R:<method>:<path>:<qs>:<hdrs>:<pragma>:<cc>:<vary>:<size>:<flags>
         strings are hex of their latin-1 bytes (`-` = empty string); lists are comma-joined
         (`_` = empty list); hdrs items are `name=value`; flags: bit0 = response Cache-Control
-        no-store, bit1 = response Pragma no-cache.
+        no-store, bit1 = response Pragma no-cache, bit2 = response.stream, bit3 = handler / body
+        iterator raises, bit4 = client abandons the (streamed) body.
 
   Output: one token per op (`H<gen>.<age>` hit, `M<gen>.<cacheable>` handler ran, `E400`, `-` for
   T / S) followed by `|cur=<cursize> vals=<stored responses> uris=<len(store)>`.
@@ -44,9 +45,9 @@ def parseOp (s : String) : Option Op :=
   else match s.splitOn ":" with
     | ["R", m, pa, qs, h, pr, cc, vary, size, flags] => do
       let fl ← flags.toNat?
-      if fl > 3 then none
+      if fl > 31 then none
       let r : Req := { method := ← str? m, uri := uriKey (← str? pa) (← str? qs), hdrs := ← hdrs? h, pragma := ← list? pr, cc := ← list? cc }
-      let p : Plan := { vary := ← list? vary, size := ← size.toNat?, noStore := fl % 2 == 1, pragmaNoCache := fl / 2 == 1 }
+      let p : Plan := { vary := ← list? vary, size := ← size.toNat?, noStore := fl % 2 == 1, pragmaNoCache := fl / 2 % 2 == 1, stream := fl / 4 % 2 == 1, bodyOk := fl / 8 % 2 == 0, drained := fl / 16 % 2 == 0 }
       pure (.req r p)
     | _ => none
 
